@@ -208,6 +208,14 @@ def run(ctx):
         back = [x for x in reach if x in loop_blocks and x != s and fc.dominates(x, a)]
         ctx.check(bool(ret_none) and not back, "C10.4", "follow_cnames:loop-returns-none", "seen.contains(target) -> return None (no further walking)",
                   "after meeting an already-seen target the walk continues", fc.loc(a))
+    # what is looked up in the visited set is the link about to be followed (the result of the map look-up), not some other name
+    def tested(fct):
+        return fct[2][1] if fct[0] == "call" and len(fct[2]) >= 2 else None
+    for a, s in contains_true:
+        xs = [tested(fct) for fct in fcc.edge_facts(a, s) if fct[0] == "call" and (fct[1].endswith("::contains") or fct[1].endswith("::insert"))]
+        ok_x = bool(xs) and all(x is not None and any(y[0] == "call" and y[1].endswith("HashMap::<K, V, S, A>::get") for y in A.walk(x)) for x in xs)
+        ctx.check(ok_x, "C10.4", "follow_cnames:visited-test-on-next-link", "the visited test is applied to the link about to be followed",
+                  "the visited set is asked about %s, not about the next link of the chain" % [A.show(x)[:60] for x in xs if x is not None], fc.loc(a))
     ctx.floor("C10.4", "seen.contains(target) tests", len(contains_true), 1)
     somes = [b for b, e in A.return_exprs(fc, fr) if A.peel(e)[0] == "agg" and A.peel(e)[2] == "Some"]
     for b in somes:
